@@ -235,7 +235,7 @@ def judge(r):
 def case_id(r):
     return "%s/%s/%s/%s/%s" % (r["adapter"], r["entry_point"], "admitted" if r["admitted_expected"] else "blocked",
                                "fallback" if r["fallback"] else "default", r["handler"]) + (
-        "/after:" + r["history"] if r.get("history") else "") + ("/ctx-done" if r.get("ctx_done") else "")
+        "/after:" + r["history"] if r.get("history") else "") + ("/ctx-done" if r.get("ctx_done") else "") + ("/block-without-rule" if r.get("block_without_rule") else "")
 
 
 def run_all(tier, only=None):
@@ -328,7 +328,7 @@ def main():
     rep["bounds"] = {
         "adapters": len(res), "entry_point_modes": len(modes), "entry_call_sites_in_tree": len(sites),
         "entry_call_sites_executed": len(sites) - len(uncovered),
-        "inputs_per_mode": "2 decisions x 2 fallback settings x 4 handler behaviours (ok, plain error, panic, the framework's typed client error) (x 2 request shapes - live / already cancelled context - where the entry point takes the caller's context: grpc, hertz, kitex, kratos, micro)" + (" + every ordered pair of requests on one resource" if tier == "thorough" else ""),
+        "inputs_per_mode": "2 decisions x 2 fallback settings x 4 handler behaviours (ok, plain error, panic, the framework's typed client error) ; blocked requests also with a block error that names no rule (x 2 request shapes - live / already cancelled context - where the entry point takes the caller's context: grpc, hertz, kitex, kratos, micro)" + (" + every ordered pair of requests on one resource" if tier == "thorough" else ""),
         "statement_coverage_of_adapter_packages": {r["adapter"]: "%d/%d" % (r["stmts_hit"], r["stmts"]) for r in res},
         "core_linked": {r["adapter"]: ("/repo working tree" if (r["adapter"] in LINK_REPO_CORE or r["adapter"] in ("kitex", "kratos", "micro")) else "release pinned by the adapter's go.mod") for r in res},
     }
